@@ -172,6 +172,6 @@ def run(prog: Program, rep: Report, tier: str = "quick") -> None:
     rep.arbitrate({"R8.2"}, "R8.4", "the predictions are the closed forms (bounded functions of the inputs)", pred=lambda i: "predict_" in i.construct or "predict_" in i.function)
     rep.arbitrate({"R8.2"}, "R8.5", "the stored ratings are the closed forms", pred=lambda i: "stored" in i.construct)
     rep.arbitrate({"R8.1"}, "R8.5", "the stored ratings are the closed forms (their divisors are sums that contain a positive term)",
-                  pred=lambda i: i.construct.startswith("div") and "divisor range [0, " in i.message and "predict_" not in i.message)
+                  pred=lambda i: i.construct.startswith("div") and "divisor range [0, " in i.message and "predict_" not in i.message and not i.module.endswith(".common"))
     rep.arbitrate({"R8.1"}, "R8.3", "valid games return normally",
                   pred=lambda i: " returns normally (" in i.construct and _re.search(r"may raise (IndexError|KeyError|AttributeError|TypeError|StopIteration|AssertionError)", i.message) is not None)
